@@ -631,6 +631,8 @@ def inline_new_locals(prog):
                         continue
                     if not _is_pure(st.value) or any(isinstance(x, ast.Call) for x in ast.walk(st.value)):
                         continue
+                    if any(isinstance(x, (ast.Dict, ast.Set, ast.ListComp, ast.DictComp, ast.SetComp)) for x in ast.walk(st.value)):
+                        continue      # module-level mutable state is not a constant
                     sub = _Subst(nm, st.value)
                     for other in body:
                         if other is not st:
@@ -648,6 +650,9 @@ def inline_new_locals(prog):
                 for st in list(c.node.body):
                     if isinstance(st, ast.Assign) and len(st.targets) == 1 and isinstance(st.targets[0], ast.Name):
                         nm = st.targets[0].id
+                        # a mutable display (dict / list / set) bound at class level is shared state, not a constant: never written out
+                        if any(isinstance(x, (ast.Dict, ast.List, ast.Set, ast.ListComp, ast.DictComp, ast.SetComp)) for x in ast.walk(st.value)):
+                            continue
                         if nm in known_c or not nm.startswith("_") or nm.startswith("__") or not _is_pure(st.value) or any(isinstance(x, ast.Call) for x in ast.walk(st.value)):
                             continue
                         cnt = 0
@@ -2074,6 +2079,46 @@ def inline_new_generators(prog, known):
                             break
                     count += 1
                     rec(host.body)
+        if count:
+            ast.fix_missing_locations(m.tree)
+    return count
+
+
+def push_down_new_mixins(prog, known):
+    """P48: a *new* class without bases of its own (no name of it in the frozen list) that known classes list as a base - a mixin the
+    common methods were pulled up into - is dissolved: its methods are copied into every class that lists it (unless the class
+    defines the method itself) and it disappears from their bases.  `super()` inside the copies then refers to the remaining base
+    (P32 makes that explicit)."""
+    from .model import FunctionInfo
+    if known is None:
+        return 0
+    count = 0
+    for m in prog.modules.values():
+        mixins = {}
+        for st in m.tree.body:
+            if isinstance(st, ast.ClassDef) and not st.bases and not any(k.startswith(st.name + ".") for k in known) and st.name not in known \
+                    and all(isinstance(x, (ast.FunctionDef, ast.Expr, ast.Pass)) for x in st.body) and not any(isinstance(x, ast.FunctionDef) and x.name == "__init__" for x in st.body):
+                mixins[st.name] = st
+        if not mixins:
+            continue
+        for cls in [n for n in m.tree.body if isinstance(n, ast.ClassDef)]:
+            listed = [b for b in cls.bases if isinstance(b, ast.Name) and b.id in mixins]
+            if not listed or len(cls.bases) - len(listed) < 1:
+                continue
+            own = {x.name for x in cls.body if isinstance(x, ast.FunctionDef)}
+            ci = m.classes.get(cls.name)
+            for b in listed:
+                for d in mixins[b.id].body:
+                    if isinstance(d, ast.FunctionDef) and d.name not in own:
+                        g = copy.deepcopy(d)
+                        cls.body.append(g)
+                        own.add(d.name)
+                        if ci is not None:
+                            ci.methods[g.name] = FunctionInfo(g, m, cls=ci)
+            cls.bases = [b for b in cls.bases if b not in listed]
+            if ci is not None:
+                ci.bases = [ast.unparse(b) for b in cls.bases]
+            count += 1
         if count:
             ast.fix_missing_locations(m.tree)
     return count
